@@ -1233,6 +1233,9 @@ fn families_of(prop: &str, tier: Tier) -> Vec<Cfg> {
             ka.io.write_pending = true;
             ka.io.flush_pending = true;
             ka.cancel = true;
+            // (the session may be lost with the connection: what was queued for the old one must not linger)
+            ka.broker.may_lose_session = true;
+            ka.watchdog_calls = 600;
             ka.max_ops = if q { 6 } else { 7 };
             ka.max_conns = 2;
             ka.max_reqs = 1;
